@@ -91,6 +91,7 @@ func (s *scLife) Configure(w *World) {
 		c.W.Park = 1
 		c.RM = t.Draw(3, nil) == 0
 		c.HealthCheck = t.Draw(3, nil) == 0
+		c.HealthInterval = time.Duration(2011+1000*t.Draw(8, nil)) * time.Millisecond
 		if c.Faults {
 			c.W.ReplyErr, c.W.Stall = 1, 1
 			c.DelayFaults = true
@@ -142,15 +143,34 @@ func (s *scLife) MayStall(w *World, c *Conn) bool {
 
 func (s *scLife) MayDrop(w *World, c *Conn) bool { return false }
 
-func (s *scLife) BeforeStep(w *World) {
-	if s.closeAt > 0 && w.step >= s.closeAt {
-		for _, m := range w.members {
-			if m.ready && !m.closing && !m.crashed {
-				s.closeAt = 0
-				w.closeMember(m)
+func (s *scLife) BeforeStep(w *World) {}
+
+// closeWeight biases Close() towards the lifecycle states the property names: a delivery in progress,
+// a save in flight, a health-check round that is retrying.
+func (s *scLife) closeWeight(w *World, m *Member) int {
+	if s.closeAt == 0 || w.step < s.closeAt {
+		return w.cfg.W.Close
+	}
+	wt := 2
+	w.mu.Lock()
+	defer w.mu.Unlock()
+	if m.parked != nil {
+		wt = 25
+	}
+	for _, c := range w.cl.conns {
+		if c.member != m.id || c.zombie || c.closed {
+			continue
+		}
+		for _, q := range c.queue {
+			if isCheckpointKey(q.pkt.Key) {
+				wt = 25
 			}
 		}
 	}
+	if w.cl.mgmtMode != "ok" && w.cfg.HealthCheck {
+		wt = 25
+	}
+	return wt
 }
 
 func (w *World) closeMember(m *Member) {
@@ -176,7 +196,7 @@ func (s *scLife) MemberActions(w *World, m *Member) []Action {
 	acts = append(acts, Action{ID: "commit|" + id, W: c.W.Commit, Do: func() {
 		m.call("Commit", func() string { m.d.Commit(); return "" })
 	}})
-	acts = append(acts, Action{ID: "close|" + id, W: c.W.Close, Do: func() { w.closeMember(m) }})
+	acts = append(acts, Action{ID: "close|" + id, W: s.closeWeight(w, m), Do: func() { w.closeMember(m) }})
 	acts = append(acts, Action{ID: "crash|" + id, W: c.W.Crash, Do: func() { m.crash() }})
 	if !m.scraping {
 		acts = append(acts, Action{ID: "scrape|" + id, W: c.W.Scrape, Do: func() { m.scrape() }})
@@ -244,6 +264,26 @@ func (s *scLife) Actions(w *World) []Action {
 			}
 		}
 		w.mu.Unlock()
+	}
+	if s.prop == "C13" && w.cfg.HealthCheck && w.cfg.Faults {
+		// the mgmt endpoint (second half of every ping) starts failing / recovers
+		w.mu.Lock()
+		mode := w.cl.mgmtMode
+		w.mu.Unlock()
+		next := "error"
+		wt := 1
+		if mode != "ok" {
+			next, wt = "ok", 3
+		}
+		acts = append(acts, Action{ID: "mgmt|" + next, W: wt, Do: func() {
+			w.mu.Lock()
+			w.cl.mgmtMode = next
+			w.mu.Unlock()
+			if next != "ok" {
+				w.jl(&journal.Ev{K: journal.KExpect, Vb: -1, S: "some services are not healthy"})
+				w.fault("mgmt:"+next, "")
+			}
+		}})
 	}
 	live := 0
 	for _, m := range w.members {
